@@ -328,8 +328,8 @@ impl Property for HistProp {
         match (self.0, tier) {
             (Which::C09, Tier::Quick) => 60_000,
             (_, Tier::Quick) => 120_000,
-            (Which::C09, Tier::Thorough) => 1_000_000,
-            (_, Tier::Thorough) => 3_000_000,
+            (Which::C09, Tier::Thorough) => 3_000_000,
+            (_, Tier::Thorough) => 6_000_000,
         }
     }
     fn run(&self, c: &HistCase) -> Outcome {
